@@ -21,5 +21,14 @@ pub proof fn names_cors()
         Config::RWS_CONFIG_CORS_ALLOW_METHODS@ == "RWS_CONFIG_CORS_ALLOW_METHODS"@,
         Config::RWS_CONFIG_CORS_EXPOSE_HEADERS@ == "RWS_CONFIG_CORS_EXPOSE_HEADERS"@,
         Config::RWS_CONFIG_CORS_MAX_AGE@ == "RWS_CONFIG_CORS_MAX_AGE"@,
+        // the documented defaults (README: "server ships with CORS enabled to all requests by default"; one day for the preflight cache)
+        Config::RWS_CONFIG_CORS_ALLOW_ALL_DEFAULT_VALUE@ == "true"@,
+        Config::RWS_CONFIG_CORS_ALLOW_ORIGINS_DEFAULT_VALUE@ == ""@,
+        Config::RWS_CONFIG_CORS_ALLOW_CREDENTIALS_DEFAULT_VALUE@ == ""@,
+        Config::RWS_CONFIG_CORS_ALLOW_HEADERS_DEFAULT_VALUE@ == ""@,
+        Config::RWS_CONFIG_CORS_ALLOW_METHODS_DEFAULT_VALUE@ == ""@,
+        Config::RWS_CONFIG_CORS_EXPOSE_HEADERS_DEFAULT_VALUE@ == ""@,
+        Config::RWS_CONFIG_CORS_MAX_AGE_DEFAULT_VALUE@ == "86400"@,
+        Cors::MAX_AGE@ == "86400"@,
 {
 }
